@@ -302,8 +302,9 @@ def _empty_format(cx, repo):
     if st:
         v = st[0].value
         ok = norm(v.elt) == f"{norm(v.generators[0].target)}.clone()" and norm(v.generators[0].iter) == "other.columns" and not v.generators[0].ifs
-        fs = {(norm(e), pol) for e, pol in facts(st[0])}
-        ok = ok and ("parsed_fmt.columns == ''", True) in fs and ("other is not None", True) in fs
+        from sa.guards import canon_facts
+        fs = canon_facts(st[0])
+        ok = ok and ("==", "''", "parsed_fmt.columns", True) in fs and ("is", "other", "None", False) in fs
     cx.ob("R13d", st[0] if st else rs_set, ok, "empty columns section: the current columns are cloned" if ok else "empty columns section does not clone every current column")
     fin = [s for s in rs_set.body if isinstance(s, ast.Assign) and any(is_self_attr(t, "columns") for t in s.targets)]
     ok = len(fin) == 1 and is_name(fin[0].value, "columns") and fin[0] is rs_set.body[-1]
@@ -312,11 +313,13 @@ def _empty_format(cx, repo):
     a = [s for s in walk_local(tf_set) if isinstance(s, ast.Assign) and any(is_self_attr(t, ("limit_flines", "limit_llines")) for t in s.targets)]
     ok = len(a) == 2 and {norm(s) for s in a} == {"self.limit_flines = other.limit_flines", "self.limit_llines = other.limit_llines"}
     if ok:
-        fs = {(norm(e), pol) for e, pol in facts(a[0])}
-        ok = ("parsed_fmt.vis_lines is None", True) in fs and ("other is None", False) in fs
+        from sa.guards import canon_facts
+        fs = canon_facts(a[0])
+        ok = ("is", "parsed_fmt.vis_lines", "None", True) in fs and ("is", "other", "None", False) in fs
     cx.ob("R13d", a[0] if a else tf_set, ok, "absent limits section: the current limits are kept" if ok else "absent limits section does not copy both current limits")
     sl = [c for c in walk_local(tf_set) if isinstance(c, ast.Call) and call_name(c) == "set_limits" and norm(c.args[0]) == "parsed_fmt.vis_lines"]
-    ok = len(sl) == 1 and any(norm(e) == "parsed_fmt.vis_lines is None" and not pol for e, pol in facts(sl[0]))
+    from sa.guards import canon_facts as _cf
+    ok = len(sl) == 1 and ("is", "parsed_fmt.vis_lines", "None", False) in _cf(sl[0])
     cx.ob("R13d", sl[0] if sl else tf_set, ok, "given limits are applied" if ok else "given limits are not applied")
     c = [x for x in walk_local(tf_set) if isinstance(x, ast.Call) and call_name(x) == "_set_parsed_fmt"]
     ok = len(c) == 1 and [norm(x) for x in c[0].args] == ["parsed_fmt.cols_parsed_fmt", "other.repr_structure"]
